@@ -7,18 +7,29 @@ LEVEL = 'other'
 CONTRACTS = ['contracts.wrappers']
 CLOSURE = [
     {'fn': 'Wrapper.convert_arr_output_to_dict'},
+    {'fn': 'NamedWrapper.convert_1d_input_to_arr'}, {'fn': 'NamedWrapper.convert_2d_input_to_arr'},
+    {'fn': 'NamedWrapper.convert_arr_output_to_dict'},
+    {'fn': 'SklearnWrapper.__call__#dict'}, {'fn': 'SklearnWrapper.__call__#list'},
     {'fn': 'RiverWrapper._extend_dict#dict'}, {'fn': 'RiverWrapper._extend_dict#num'}, {'fn': 'RiverWrapper._extend_dict#label'},
 ]
 EXPLANATION = ("Proved over a stated ndarray model (ndim 0/1/2, dims, flat data, string flag; float(ndarray) as on the installed NumPy, "
                "probed on every run): convert_arr_output_to_dict gives {'output': value} for every size-one output (shapes (), (1,), "
                "(1,1)), {i: value_i} over the flattened output otherwise, ValueError for string content; RiverWrapper._extend_dict: dict "
                "passthrough, number -> {'output': float}, string label -> one-hot over the labels seen so far, the seen set only grows. "
-               "Bounded (not proved): input conversion (feature order from the names, key-order independence, only named features "
-               "reach the model), per-row batch conversion = one-at-a-time calls, validate_model_function dispatch, over output shapes, "
-               "dtypes, sklearn estimators, river models and torch modules.")
+               "With configured feature names (Wrapper.convert_1d/2d_input_to_arr, SklearnWrapper.__call__): the row the model receives "
+               "has exactly the named features' values in the configured order - a function of the input dict AS A MAP, so key order "
+               "and extra features cannot matter (obligation ordered_dict_keys_distinct: the names are pairwise distinct); a dict input "
+               "yields the canonical dict of the model's prediction on that one row; a list input yields, in order, the canonical dict "
+               "of each row of the model's batch output (loop invariant over the rows; the element-wise comprehension as a quantified "
+               "definition). Bounded (not proved): wrappers without feature names (dict insertion order is then the order), "
+               "batch = one-at-a-time for row-wise models, validate_model_function dispatch, RiverWrapper/TorchWrapper __call__, over "
+               "output shapes, dtypes, sklearn estimators, river models and torch modules.")
 ASSUMPTIONS = ["ndarray model; float(ndarray) semantics probed on the installed NumPy only",
-               "input conversion / batch path / validate_model_function dispatch / torch conversions: bounded run-time checks only "
-               "(dict order and type-name dispatch are outside the value model)",
+               "dicts preserve insertion order (Python >= 3.7) - used for the dict comprehension over the feature names",
+               "the prediction function is a deterministic function PF of the 2-d input array; np.asarray of a list of value lists is "
+               "the matrix of those rows (dtype coercion of mixed string/number rows by NumPy is outside the model)",
+               "unnamed input conversion / validate_model_function dispatch / torch conversions: bounded run-time checks only "
+               "(type-name dispatch is outside the value model)",
                "'type name contains sklearn / river' characterises those libraries' estimators (exercised by the sweep)"]
 TRUSTED_BASE = ["ndarray output model", "NumPy float() contract (probed)"]
 LEVEL_TEXT = ("Output canonicalisation proved deductively over the real source against an ndarray model; the remaining clauses of the "
@@ -178,9 +189,13 @@ def BOUNDED(tier, seed):
 
 def SEARCH(ob, seed):
     b = BOUNDED('quick', seed)[0]
-    want = {'size_one_default_label': 'size_one_output', 'vector_by_index': 'vector_output'}.get(ob.meta.get('clause'))
+    want = {'size_one_default_label': ['size_one_output'], 'vector_by_index': ['vector_output'],
+            'one_row_by_name': ['input_conversion'], 'single': ['input_conversion', 'wrapper_call'],
+            'rows_by_name': ['batch_input_conversion'], 'rows': ['batch_input_conversion'],
+            'batch_input_by_name': ['batch_input_conversion'], 'batch_rows_in_order': ['batch_conversion', 'wrapper_call'],
+            'ordered_dict_keys_distinct': ['input_conversion']}.get(ob.meta.get('clause'), [])
     for f in b['failures']:
-        if f['key'] == want:
+        if f['key'] in want:
             return {'witness': {'key': f['key']}, 'observed': {'confirmed': True, 'what': f['summary']}}
     return None
 
